@@ -16,6 +16,9 @@ CHECKS = {
 CHECKS['C20'] = dict(engine='E1-crosshair', technique='bounded symbolic execution with SMT (CrossHair/z3): op(Quantity(v,u),x) vs op(v,x) per operator and operand form; replay',
    text='One CrossHair condition per (operator found on the live Qty class, operand form Q.n / n.Q / Q.Q); int and bool operands are symbolic z3 terms (unbounded, or small ranges concretised per value for mul/div/mod/pow/shift/bitwise), floats come from a concrete catalogue of special values selected by symbolic index. Result and exception class are compared with the plain-number computation. "confirmed" = all paths exhausted.',
    note='Trusts CrossHair/z3 and CPython number semantics on the right-hand side of the comparison; MODE_PINT off; float rounding is not decided by the solver.', ref='5 C20')
+CHECKS['C16'] = dict(engine='E1-crosshair', technique='bounded symbolic execution with SMT (CrossHair/z3): one operation from an arbitrary valid map vs reference ordered-map model; replay',
+   text='One CrossHair condition per SortableDict/MetadataObject operation. The pre-state (which of 4-5 keys, in which order, with which symbolic values) and every argument (key, value, index, pos_key, after, replace) are symbolic; the real method and a reference ordered-map model run in lock step; the representation invariant is re-established after every operation, so the step result extends to histories (induction schema trusted). "confirmed" = all paths exhausted within the bound.',
+   note='Trusts CrossHair/z3; the reference model is written from the add_item docstring; keys are concrete strings chosen by symbolic selectors; multi-item extend/update compared item by item.', ref='5 C16')
 NA_REASON = {}
 
 def main():
